@@ -311,6 +311,10 @@ pub fn generate(rng: &mut Rng, tier: &str, w: &mut CaseWriter) {
     for _ in 0..n {
         gen_bamu(rng, w);
     }
+    let n = if tier == "thorough" { 1000 } else { 70 };
+    for _ in 0..n {
+        gen_bcfb(rng, w);
+    }
 }
 
 // ---------------------------------------------------------------------------------------------
@@ -1109,8 +1113,189 @@ fn run_bamb(c: &Case) -> Obs {
     }
 }
 
+// ---------------------------------------------------------------------------------------------
+// kind `bcfb`: the BCF record framing over the BYTES (NV.Index.BcfByteQuery.bcf_byte_session)
+//
+//   bcfb  hl file frames sessions      -- as for bamb; the uncompressed stream is a BCF file written
+//         by bcf::io::Writer (hl = 5 magic bytes + 4 + l_text), cut at arbitrary points (inside
+//         records, inside either length word) into BGZF blocks; the chunk lists are boundary pairs
+//         of the scan (start of record i, end of record j >= i; any order, overlaps, repeats) and
+//         the empty list
+//         obs = S<a>-<b>-<len>-<hash>,...|Q<len>-<hash>,...|...  where a record is described by
+//         everything behind its l_shared word (l_indiv word ++ site ++ samples), or Err:<kind>
+//
+// Model: bcf_byte_session = bcf/io/reader/record.rs read_record (two length words, site,
+// Fields::index, samples) over the bgzf reader / over csi::io::Query::new(reader, chunks), which is
+// what bcf::io::Reader::query wraps (bcf/io/reader/query.rs reads with read_record from it).
+// Oracle: as for bamb (records whose start position lies in a chunk, chunk by chunk).
+
+fn gen_bcfb(rng: &mut Rng, w: &mut CaseWriter) {
+    let mut r2 = rng.fork();
+    let built = guarded(AssertUnwindSafe(move || -> io::Result<_> {
+        let raw = super::fmt::bcfb_raw_stream(&mut r2)?;
+        if raw.len() < 9 {
+            return Err(io::Error::from(io::ErrorKind::InvalidData));
+        }
+        let hl = 9 + u32::from_le_bytes([raw[5], raw[6], raw[7], raw[8]]) as usize;
+        let file = bgzf_file(&mut r2, &raw)?;
+        let frames = frame_table(&file)?;
+        let mut reader = noodles_bcf::io::Reader::new(Cursor::new(&file[..]));
+        reader.read_header()?;
+        let mut sc: Vec<(u64, u64)> = Vec::new();
+        let mut record = noodles_bcf::Record::default();
+        let mut start = u64::from(reader.get_ref().virtual_position());
+        while reader.read_record(&mut record)? != 0 {
+            let end = u64::from(reader.get_ref().virtual_position());
+            sc.push((start, end));
+            start = end;
+        }
+        Ok((hl, file, frames, sc))
+    }));
+    let (hl, file, frames, sc) = match built {
+        Outcome::Done(Ok(x)) => x,
+        _ => return,
+    };
+    let mut sessions: Vec<Vec<(u64, u64)>> = Vec::new();
+    for _ in 0..rng.range(1, 5) {
+        let mut q: Vec<(u64, u64)> = Vec::new();
+        if !(sc.is_empty() || rng.chance(1, 10)) {
+            for _ in 0..rng.range(1, 4) {
+                let i = rng.below(sc.len() as u64) as usize;
+                let j = rng.range(i as u64, sc.len() as u64 - 1) as usize;
+                q.push((sc[i].0, sc[j].1));
+            }
+        }
+        sessions.push(q);
+    }
+    w.push("bcfb", vec![hl.to_string(), hex(&file), fmt_frames(&frames), fmt_sessions(&sessions)]);
+}
+
+fn run_bcfb(c: &Case) -> Obs {
+    let hl = c.u(0) as usize;
+    let file = unhex(&c.args[1]);
+    let sessions = parse_sessions(&c.args[3]);
+    let (frames, raw) = match guarded(AssertUnwindSafe(|| frame_table(&file))) {
+        Outcome::Done(Ok(fs)) => {
+            let raw: Vec<u8> = fs.iter().flat_map(|(_, d)| d.iter().copied()).collect();
+            (fs, raw)
+        }
+        _ => return Obs::fail("-", "harness-bcfb-frame-table", ""),
+    };
+    if fmt_frames(&frames) != c.args[2] {
+        return Obs::fail("-", "harness-bcfb-frames-differ-from-case", "");
+    }
+    // record i of the uncompressed stream: everything behind its l_shared word
+    let mut bodies: Vec<&[u8]> = Vec::new();
+    let mut at = hl;
+    while at + 8 <= raw.len() {
+        let ls = u32::from_le_bytes([raw[at], raw[at + 1], raw[at + 2], raw[at + 3]]) as usize;
+        let li = u32::from_le_bytes([raw[at + 4], raw[at + 5], raw[at + 6], raw[at + 7]]) as usize;
+        if ls == 0 || at + 8 + ls + li > raw.len() {
+            break;
+        }
+        bodies.push(&raw[at + 4..at + 8 + ls + li]);
+        at += 8 + ls + li;
+    }
+    // the reader does not expose the raw buffers: a record is identified by its ID column (the
+    // generator writes the record's ordinal there) and described by the stream bytes of that ordinal
+    fn rid(r: &noodles_bcf::Record) -> String {
+        let ids = r.ids();
+        let b: &[u8] = ids.as_ref();
+        String::from_utf8_lossy(b).into_owned()
+    }
+    let body_of = |name: &str| -> Option<&[u8]> { name.parse::<usize>().ok().and_then(|i| bodies.get(i).copied()) };
+    let desc = |name: &String| -> String {
+        match body_of(name) {
+            Some(b) => format!("{}-{}", b.len(), hash_bytes(b)),
+            None => "?".into(),
+        }
+    };
+
+    type Ans = Vec<io::Result<Vec<String>>>;
+    let r = guarded(AssertUnwindSafe(|| -> io::Result<(Vec<(u64, u64, String)>, Ans)> {
+        // ONE reader object for the scan and all the queries
+        let mut reader = noodles_bcf::io::Reader::new(Cursor::new(&file[..]));
+        reader.read_header()?;
+        let mut sc = Vec::new();
+        let mut record = noodles_bcf::Record::default();
+        let mut start = u64::from(reader.get_ref().virtual_position());
+        while reader.read_record(&mut record)? != 0 {
+            let end = u64::from(reader.get_ref().virtual_position());
+            sc.push((start, end, rid(&record)));
+            start = end;
+        }
+        let mut answers = Vec::new();
+        for q in &sessions {
+            let cs: Vec<Chunk> = q
+                .iter()
+                .map(|(a, b)| Chunk::new(bgzf::VirtualPosition::from(*a), bgzf::VirtualPosition::from(*b)))
+                .collect();
+            let query = csi::io::Query::new(reader.get_mut(), cs);
+            let mut qr = noodles_bcf::io::Reader::from(query);
+            let mut got = Vec::new();
+            let mut res = Ok(());
+            loop {
+                match qr.read_record(&mut record) {
+                    Ok(0) => break,
+                    Ok(_) => got.push(rid(&record)),
+                    Err(e) => {
+                        res = Err(e);
+                        break;
+                    }
+                }
+            }
+            answers.push(res.map(|()| got));
+        }
+        Ok((sc, answers))
+    }));
+    match r {
+        Outcome::Done(Ok((sc, answers))) => {
+            let mut obs = String::from("S");
+            obs.push_str(&sc.iter().map(|(a, b, n)| format!("{a}-{b}-{}", desc(n))).collect::<Vec<_>>().join(","));
+            let mut verdict: Result<(), (String, String)> = Ok(());
+            let mut nontrivial = false;
+            if sc.len() != bodies.len() || sc.iter().enumerate().any(|(i, (_, _, n))| *n != i.to_string()) {
+                verdict = Err(("bcfb-scan-records-differ-from-stream".into(), format!("{} vs {}", sc.len(), bodies.len())));
+            }
+            for (qi, (q, ans)) in sessions.iter().zip(&answers).enumerate() {
+                obs.push_str("|Q");
+                match ans {
+                    Ok(got) => {
+                        obs.push_str(&got.iter().map(|n| desc(n)).collect::<Vec<_>>().join(","));
+                        let want: Vec<String> = q
+                            .iter()
+                            .flat_map(|(a, b)| sc.iter().filter(move |(ra, _, _)| *a <= *ra && *ra < *b).map(|(_, _, n)| n.clone()))
+                            .collect();
+                        if !got.is_empty() && got.len() != sc.len() {
+                            nontrivial = true;
+                        }
+                        if *got != want && verdict.is_ok() {
+                            let tag = if qi == 0 {
+                                "bcfb-chunk-read-differs-from-records-starting-in-chunks".to_string()
+                            } else {
+                                "bcfb-chunk-read-after-previous-query-differs".to_string()
+                            };
+                            verdict = Err((tag, format!("query {qi}: want {} got {} records", want.len(), got.len())));
+                        }
+                    }
+                    Err(e) => {
+                        obs.push_str(&format!("Err:{}", errkind(e)));
+                        if verdict.is_ok() {
+                            verdict = Err(("bcfb-chunk-read-error".into(), format!("query {qi}: {e}")));
+                        }
+                    }
+                }
+            }
+            Obs::ok(obs, nontrivial).with_verdict(verdict)
+        }
+        Outcome::Done(Err(e)) => Obs::fail(format!("Err:{}", errkind(&e)), "bcfb-scan-error", format!("{e}")),
+        Outcome::Panicked(m) => Obs::fail("Panic", "bcfb-panic", m),
+    }
+}
+
 pub fn run(c: &Case) -> Option<Obs> {
     match c.kind.as_str() {
+        "bcfb" => Some(run_bcfb(c)),
         "bamb" => Some(run_bamb(c)),
         "bamx" => Some(run_bamx(c)),
         "bamu" => Some(run_bamu(c)),
